@@ -235,28 +235,28 @@ func (rep *Report) Finish() int {
 		"seed":        seedFromEnv(),
 		"level":       levelOf(rep.Verif, rep.Prop),
 		"coverage": map[string]interface{}{
-			"obligations":                             total,
-			"discharged":                              okCount,
-			"checker_cmd":                             fmt.Sprintf("/verif/check %s %s", rep.Prop, rep.Tier),
-			"trusted_base":                            base,
-			"functions_under_contract":                rep.Sel.Funcs,
-			"obligations_by_kind":                     byKind,
-			"discharged_by_solver":                    bySolver,
-			"obligations_not_attempted_after_failure": skipped,
-			"quick_tier_sampled_case_splits":          rep.Runner.Sampled,
-			"deferred_to_thorough_tier":               rep.Sel.Deferred,
-			"obligations_ideal":                       idealCount,
-			"vacuity_covers_checked":                  covers,
-			"vacuity_covers_satisfied":                coversSat,
+			"obligations":                              total,
+			"discharged":                               okCount,
+			"checker_cmd":                              fmt.Sprintf("/verif/check %s %s", rep.Prop, rep.Tier),
+			"trusted_base":                             base,
+			"functions_under_contract":                 rep.Sel.Funcs,
+			"obligations_by_kind":                      byKind,
+			"discharged_by_solver":                     bySolver,
+			"obligations_not_attempted_after_failure":  skipped,
+			"quick_tier_sampled_case_splits":           rep.Runner.Sampled,
+			"deferred_to_thorough_tier":                rep.Sel.Deferred,
+			"obligations_ideal":                        idealCount,
+			"vacuity_covers_checked":                   covers,
+			"vacuity_covers_satisfied":                 coversSat,
 			"second_solver_sat_not_confirmed_by_third": crossUnconfirmed,
-		"cross_checked_by_second_solver":          crossed,
-			"solver_cpu_ms":                           solverMs,
-			"load_ssa_s":                              rep.LoadT.Seconds(),
-			"bounded_checks":                          bounded,
-			"samples":                                 samples,
-			"known_findings_seen":                     knownSeen,
-			"explanation":                             explanationOf(rep.Prop),
-			"kinds_legend":                            "P postcondition, R callee precondition, I0/I1 invariant establishment/preservation, S no-panic safety, O integer overflow, X float side condition, L lemma, V vacuity guard (expected satisfiable), M string-model bound, F frame, D order-determinism",
+			"cross_checked_by_second_solver":           crossed,
+			"solver_cpu_ms":                            solverMs,
+			"load_ssa_s":                               rep.LoadT.Seconds(),
+			"bounded_checks":                           bounded,
+			"samples":                                  samples,
+			"known_findings_seen":                      knownSeen,
+			"explanation":                              explanationOf(rep.Prop),
+			"kinds_legend":                             "P postcondition, R callee precondition, I0/I1 invariant establishment/preservation, S no-panic safety, O integer overflow, X float side condition, L lemma, V vacuity guard (expected satisfiable), M string-model bound, F frame, D order-determinism",
 		},
 		"assumptions": assumptions,
 		"wall_s":      wall,
